@@ -2,7 +2,7 @@
    case line:   ( script ) ( calls )
      value   = ( xn ) | ( xs <str> ) | ( xb <str> ) | ( xi <int> )        (tags "n" "s" "b" "i")
      message = ( ( ) | ( <type> )   ( ( <key> value ) ... ) )
-     call    = ( <name> args... )
+     call    = ( <name> args... )      iter_open takes xt (text) or xb (bytes), iter_step / iter_close the generator's number
    observation line:  ( cs aps )  then per call ( outcome ( event ... ) cs aps ) *)
 From Coq Require Import List NArith ZArith Bool.
 From Baize Require Import Lib.Wire C11.Model.
@@ -41,6 +41,14 @@ Definition rd_call (x : sx) : option call :=
       else if str_eqb name (lit "send_bytes") then match args with [v] => Some (SendBytes (rd_value v)) | _ => None end
       else if str_eqb name (lit "close") then match args with [c; r] => Some (Close (rd_value c) (rd_value r)) | _ => None end
       else if str_eqb name (lit "send") then match args with [m] => Some (Send (rd_msg m)) | _ => None end
+      else if str_eqb name (lit "iter_open") then
+        match args with
+        | [Str k] => if str_eqb k (lit "t") then Some (IterOpen KText)
+                     else if str_eqb k (lit "b") then Some (IterOpen KBytes) else None
+        | _ => None
+        end
+      else if str_eqb name (lit "iter_step") then match args with [Num n] => Some (IterStep (Z.to_nat n)) | _ => None end
+      else if str_eqb name (lit "iter_close") then match args with [Num n] => Some (IterClose (Z.to_nat n)) | _ => None end
       else None
   | _ => None
   end.
@@ -83,6 +91,8 @@ Definition show_outcome (o : outcome) : sx :=
   | OVal v => Lst [tag (lit "val"); show_value v]
   | OExn e => show_exn e
   | OIter items t => Lst [tag (lit "iter"); Lst (map show_value items); show_term t]
+  | OStop => Lst [tag (lit "stop")]
+  | ONoIter => Lst [tag (lit "noiter")]
   end.
 
 Definition show_ev (e : ev) : sx :=
